@@ -6,6 +6,25 @@
 #   scripts/sensitivity.sh [--tier quick|thorough] [mutant-name ...]
 set -u
 VERIF="$(cd "$(dirname "$0")/.." && pwd)"
+# --shards K: split the default mutant list over K concurrent scratch copies
+if [ "${1:-}" = "--shards" ]; then
+    K="$2"; shift 2
+    TIER_ARGS=""; if [ "${1:-}" = "--tier" ]; then TIER_ARGS="--tier $2"; T="$2"; shift 2; else T=quick; fi
+    ALL="BASELINE $(cd "$VERIF/mutants" && ls *.diff | sed 's/\.diff$//') $(ls -d "$VERIF"/seeded/*/ | sed 's|/$||; s|$|/patch.diff|')"
+    i=0; pids=""
+    for k in $(seq 1 "$K"); do : > "/tmp/sens-shard-$k.list"; done
+    for n in $ALL; do k=$(( i % K + 1 )); echo "$n" >> "/tmp/sens-shard-$k.list"; i=$((i+1)); done
+    for k in $(seq 1 "$K"); do
+        SENS_DIR="/tmp/sens-shard-$k" "$0" $TIER_ARGS $(cat "/tmp/sens-shard-$k.list") > "/tmp/sens-shard-$k.out" 2>&1 &
+        pids="$pids $!"
+    done
+    wait $pids
+    OUT="$VERIF/mutants/RESULTS-$T.tsv"
+    { head -1 /tmp/sens-shard-1.out; for k in $(seq 1 "$K"); do tail -n +2 "/tmp/sens-shard-$k.out"; done | sort -u; } > "$OUT"
+    rm -f /tmp/sens-shard-*.list /tmp/sens-shard-*.out
+    cat "$OUT"
+    exit 0
+fi
 S="${SENS_DIR:-/tmp/sens}"
 TIER=quick
 if [ "${1:-}" = "--tier" ]; then TIER="$2"; shift 2; fi
@@ -21,7 +40,7 @@ trap cleanup EXIT
 
 if [ $# -gt 0 ]; then NAMES="$*"; else NAMES="BASELINE $(cd "$VERIF/mutants" && ls *.diff | sed 's/\.diff$//') $(ls -d "$VERIF"/seeded/*/ | sed 's|/$||; s|$|/patch.diff|')"; fi
 OUT="$VERIF/mutants/RESULTS-$TIER.tsv"
-[ $# -gt 0 ] && OUT="/dev/stdout"
+[ $# -gt 0 ] && OUT="/dev/null"
 {
 printf "mutant\texpected\tsuite\t%s\n" "$(echo $IDS | tr ' ' '\t')"
 for name in $NAMES; do
